@@ -14,6 +14,7 @@
   (`naive_result`, `zoned_result`, `…_properties`).
 -/
 import Chrono.Proofs.RoundCor2L
+import Chrono.Props.GenDelta
 
 namespace Chrono.Props.C17
 open Chrono Chrono.M Chrono.M.Round Chrono.Spec Chrono.Spec.Round Chrono.Proofs.RoundL
@@ -867,6 +868,39 @@ theorem dst_zone_trunc_is_not_wall_clock_midnight :
     zoned_duration .trunc ⟨⟨dateOfYo 2024 308, ⟨61200, 0⟩⟩, -18000⟩ ⟨86400, 0⟩ =
       .ok (.ok ⟨⟨dateOfYo 2024 308, ⟨18000, 0⟩⟩, -18000⟩) ∧
     instSecs ⟨dateOfYo 2024 308, ⟨18000, 0⟩⟩ = 1730610000 := by decide +kernel
+
+/-! ### End to end for the translated callees (generated code = specification)
+
+src/round.rs itself has no code translation yet (audit 2, MEDIUM-2: the translator's owner extends the
+translated set); two callees on C17's path have one (Props/GenDelta.lean: generated code = model).
+Composed here with the model = specification theorems used above. -/
+
+/-- `duration.num_nanoseconds()` — the span every `duration_*` function starts from — as TRANSLATED from
+src/time_delta.rs, for every valid `TimeDelta`: the exact nanosecond count when it is an `i64`, else
+`None` (which the guard turns into `DurationExceedsLimit`); no panic -/
+theorem gen_span_is_spec (dur : Delta) (hd : DInv dur) :
+    Gen.time_delta.TimeDelta.num_nanoseconds (Chrono.Proofs.GenL.dG dur) =
+      .ok (if InI64 (ns dur) then some (ns dur) else none) := by
+  obtain ⟨h0, h1, h2⟩ := hd
+  have hN : NS_MAX = 9223372036854775807 * 1000000 := rfl
+  unfold nsInRange at h2
+  have hns : ns dur = dur.secs * 1000000000 + dur.nanos := rfl
+  rw [Chrono.Props.GenDelta.gen_num_nanoseconds_eq dur (by omega) (by omega),
+    Chrono.Proofs.RoundL.num_nanoseconds_eq dur ⟨h0, h1, h2⟩]
+  by_cases h : InI64 (ns dur)
+  · rw [if_pos h, Chrono.Proofs.optI64_some h.1 h.2]
+  · rw [if_neg h, Chrono.Proofs.optI64_none (by unfold InI64 at h; omega)]
+
+/-- `TimeDelta::nanoseconds(d)` — the amount `original ± …` is moved by — as TRANSLATED from
+src/time_delta.rs, for every move the integer part can produce (`|d| ≤ i64::MAX`): a valid `TimeDelta`
+of exactly `d` nanoseconds -/
+theorem gen_move_is_spec (d : Int) (h : -9223372036854775807 ≤ d ∧ d ≤ 9223372036854775807) :
+    Gen.time_delta.TimeDelta.nanoseconds d = .ok (Chrono.Proofs.GenL.dG (Delta.nanoseconds d)) ∧
+    DInv (Delta.nanoseconds d) ∧ ns (Delta.nanoseconds d) = d :=
+  ⟨Chrono.Props.GenDelta.gen_nanoseconds_eq d ⟨by omega, h.2⟩, nanos_delta d h⟩
+
+example : DInv ⟨86400, 0⟩ ∧ InI64 (ns ⟨86400, 0⟩) ∧ ¬ InI64 (ns ⟨9223372036, 854775808⟩) ∧
+    DInv ⟨9223372036, 854775808⟩ := by decide
 
 /-- FINDING (kept visible; replayed on the crate by the harness).  A date-time inside a leap second
 (sub-second field ≥ 10⁹) has the stamp of the following second, but `original + delta` counts the
